@@ -120,14 +120,18 @@ Pop == SubSeq(stack, 1, Len(stack) - 1)
 CurAtt == LET ss == SelectSeq(stack, LAMBDA f : f.fn = "scenario") IN IF ss = <<>> THEN 0 ELSE ss[Len(ss)].att
 Ev(k, name, el, tag, raised, pos, outcome, status, undef, cid, oreal, ereal) ==
    [k |-> k, name |-> name, el |-> el, tag |-> tag, raised |-> raised, pos |-> pos, outcome |-> outcome,
-    status |-> status, undefined |-> undef, cid |-> cid, out_real |-> oreal, err_real |-> ereal, att |-> CurAtt, n |-> 0]
+    status |-> status, undefined |-> undef, cid |-> cid, out_real |-> oreal, err_real |-> ereal, att |-> CurAtt, n |-> 0, via |-> ""]
 \* (n: ordinal of the hook invocation in the run)
 HookEv(name, el, tag, raised, pos, instep) ==
    [Ev("hook", name, el, tag, raised, pos, "", "", FALSE, 0, ~(instep /\ cfg.cap_out), ~(instep /\ cfg.cap_err)) EXCEPT !.n = rt.hookN + 1]
 FmtEv(name, el, pos, status, undef) == Ev("fmt", name, el, "", FALSE, pos, "", status, undef, 0, TRUE, TRUE)
 RepEv(name, el, status) == Ev("rep", name, el, "", FALSE, 0, "", status, FALSE, 0, TRUE, TRUE)
 ClEv(cid, raised) == Ev("cleanup", "", 0, "", raised, 0, "", "", FALSE, cid, TRUE, TRUE)
-StepEv(el, pos, o) == Ev("step", "", el, "", FALSE, pos, o, "", FALSE, 0, ~cfg.cap_out, ~cfg.cap_err)
+\* via: the registration that served the step.  P.typed: one step function per step type (given / when / then) under the
+\* same pattern -- find_match looks in the list of the step's own type (And / But inherit it), then in the generic list;
+\* otherwise a single generic function serves every type
+StepEv(el, pos, o) == [Ev("step", "", el, "", FALSE, pos, o, "", FALSE, 0, ~cfg.cap_out, ~cfg.cap_err)
+                       EXCEPT !.via = IF P.typed THEN prog[el].steps[pos].stype ELSE "step"]
 
 Init == /\ pi \in 1..Len(Cases)
         /\ ci \in 1..Len(Cases[pi].cfgs)
